@@ -50,7 +50,8 @@ any_text = weighted((6, nasty_text), (6, lines_text), (4, indented_lines_text), 
 def value_strategy():
     ints = st.one_of(st.integers(-40, 400), st.integers(-(2**15), 2**15 - 1), st.integers(-(10**9), 10**9))
     fixed_float = st.integers(-64 * 256, 64 * 256 - 1).map(lambda k: {"t": "fixf", "k": k})
-    fixed_str = st.tuples(st.sampled_from(["", "-"]), st.sampled_from(["0", "1", "12", "63", "007", "00", ""]), st.sampled_from(["0", "5", "50", "05", "125", "996", "000", "10"])).map(
+    fixed_str = st.tuples(st.sampled_from(["", "-"]), st.sampled_from(["0", "1", "12", "63", "007", "00", "", "127", "9007199254740993", "18446744073709551617", "0" * 20 + "1"]),
+                          st.sampled_from(["0", "5", "50", "05", "125", "996", "000", "10", "9" * 16, "9" * 17, "9" * 30, "0000001", "00000025", "0" * 9, "12345678901234567890", "000000000000000000001"])).map(
         lambda t: {"t": "fixs", "v": f"{t[0]}{t[1] or '0'}.{t[2]}"})
     const = st.sampled_from(IDENT).map(lambda n: {"t": "const", "v": n})
     string = any_text.map(lambda s: {"t": "str", "v": s})
@@ -69,7 +70,8 @@ def literal_strategy():
         st.tuples(sign, st.sampled_from(["0b", "0B"]), st.integers(0, 10**6), st.integers(0, 3)).map(lambda t: t[0] + t[1] + "0" * t[3] + format(t[2], "b")),
         st.tuples(sign, st.integers(1, 5)).map(lambda t: t[0] + "0" * t[1]),
     ).map(lambda s: {"lit": "int", "text": s})
-    decimal = st.tuples(sign, st.sampled_from(["", "0", "00", "1", "01", "0012", "63", "10", "100"]), st.sampled_from(["0", "5", "50", "05", "00", "125", "9960", "000"])).map(
+    decimal = st.tuples(sign, st.sampled_from(["", "0", "00", "1", "01", "0012", "63", "10", "100", "9007199254740993", "123456789012345678901234567890"]),
+                        st.sampled_from(["0", "5", "50", "05", "00", "125", "9960", "000", "9" * 17, "0000001", "0" * 10, "98765432109876543210"])).map(
         lambda t: {"lit": "dec", "text": f"{t[0]}{t[1]}.{t[2]}"})
     # single line: body characters, with documented escapes and other backslash sequences
     piece = st.sampled_from(["a", "B", " ", "\\n", "\\'", '\\"', "\\\\", "\\t", "\\x", "'", '"', "é", "{", "//", "/*", "\\ ", "n"])
